@@ -569,6 +569,10 @@ func (database *ChainDatabase) GetConfirms(hash common.Hash) ([]types.SignData, 
 }
 
 func (database *ChainDatabase) LoadLatestBlock() (*types.Block, error) {
+	// LastConfirm is replaced by SetStableBlock in other goroutines
+	database.RW.RLock()
+	defer database.RW.RUnlock()
+
 	if database.LastConfirm.Block == nil {
 		return nil, ErrBlockNotExist
 	} else {
@@ -770,6 +774,10 @@ func (database *ChainDatabase) GetAssetID(id common.Hash) (common.Address, error
 }
 
 func (database *ChainDatabase) IterateUnConfirms(fn func(*types.Block)) {
+	// The unconfirmed block tree is changed by SetBlock and SetStableBlock in other goroutines. fn must not call the database
+	database.RW.RLock()
+	defer database.RW.RUnlock()
+
 	database.LastConfirm.Walk(func(block *CBlock) {
 		fn(block.Block)
 	}, nil)
